@@ -58,6 +58,7 @@ type Point struct {
 	Running bool   // thread choice where alternative 0 is the still-enabled running thread
 	Desc    string // only filled when tracing
 	Alts    []int  // thread ids of the alternatives (tracing only)
+	FP      uint32 // fingerprint of the state the choice was made in (alternatives, their pending operations, virtual time)
 }
 
 type Event struct {
@@ -78,6 +79,7 @@ type Exec struct {
 	now      time.Time
 	Horizon  time.Time
 	prefix   []int
+	expectFP []uint32
 	Points   []Point
 	Events   []Event
 	Trace    bool
@@ -187,6 +189,7 @@ func site() string {
 // Options configures one execution.
 type Options struct {
 	Prefix         []int
+	ExpectFP       []uint32 // fingerprints the points of the prefix must have (from the execution the prefix was taken from); a mismatch is a divergence
 	Trace          bool
 	Horizon        time.Duration // virtual time budget (0 = 24h)
 	ClockContended bool
@@ -210,6 +213,7 @@ func Run(opt Options, body func()) *Exec {
 	e := &Exec{
 		chans:    map[uintptr]*chanState{},
 		prefix:   opt.Prefix,
+		expectFP: opt.ExpectFP,
 		Trace:    opt.Trace,
 		now:      Epoch,
 		Horizon:  Epoch.Add(h),
@@ -521,7 +525,34 @@ func (e *Exec) choice(n int, thread, running bool, en []*Thread) int {
 			return -1
 		}
 	}
-	p := Point{N: n, Chosen: c, Thread: thread, Running: running}
+	// fingerprint of the state: who can run, what each is about to do, and when
+	fp := uint32(2166136261)
+	mix := func(v uint32) { fp = (fp ^ v) * 16777619 }
+	mix(uint32(n))
+	if thread {
+		mix(1)
+	}
+	if running {
+		mix(2)
+	}
+	mix(uint32(e.now.UnixNano()))
+	mix(uint32(e.now.UnixNano() >> 32))
+	for _, t := range en {
+		mix(uint32(t.ID))
+		if t.pending != nil {
+			for k := 0; k < len(t.pending.Kind); k++ {
+				mix(uint32(t.pending.Kind[k]))
+			}
+		}
+	}
+	if en == nil && e.running != nil {
+		mix(uint32(e.running.ID) + 77)
+	}
+	if i < len(e.expectFP) && e.expectFP[i] != fp {
+		e.Diverged = fmt.Sprintf("replay divergence at point %d: the state differs from the one this prefix was recorded in (%d alternatives; nondeterminism outside the scheduler)", i, n)
+		return -1
+	}
+	p := Point{N: n, Chosen: c, Thread: thread, Running: running, FP: fp}
 	if e.Trace && thread {
 		t := en[c]
 		p.Desc = fmt.Sprintf("%s %s@%s", t.Name, t.pending.Kind, t.pending.Site)
@@ -696,6 +727,15 @@ func (e *Exec) Choices() []int {
 	out := make([]int, len(e.Points))
 	for i, p := range e.Points {
 		out[i] = p.Chosen
+	}
+	return out
+}
+
+// Fingerprints returns the state fingerprint of every choice point, for replaying the execution.
+func (e *Exec) Fingerprints() []uint32 {
+	out := make([]uint32, len(e.Points))
+	for i, p := range e.Points {
+		out[i] = p.FP
 	}
 	return out
 }
